@@ -9,6 +9,7 @@ META = {
         "Static analysis over rustc MIR. Decides: (1) address-kind discipline: the numeric payload of a GlobalAddress never flows into a RelocatedAddress constructor (or the reverse) inside one function without passing through a mapping-offset function (relocate*, into_global, remove_vas_region_offset); the offset arithmetic itself is global + offset / relocated - offset with the offset taken from the registry for the right object; "
         "(2) linker-map protocol: the entry-point stop initialises the rendezvous, refreshes the registry, enables all breakpoints and installs the linker-map breakpoint at r_brk; a linker-map stop refreshes the registry (link map -> reload plan -> parse -> update_mappings) and, after stepping off the breakpoint, retries the deferred breakpoints; "
         "(3) the region lookup used for relocation is half-open and sorted by its search key (shared with C04)."
+        " Also: remove_vas_region_offset is applied with the mapping offset looked up for that same address."
     ),
     "not_decided": "correct relocation for real PIE / dlopen layouts; `sharedlib info` contents",
     "assumptions": [],
